@@ -47,22 +47,66 @@ class Tick:
     def __hash__(self): return hash(("T", self.t))
     def __repr__(self): return f"Tick({self.t})"
 
+def _num(o):
+    """plain number out of a TSec / integral float (keeps z3 in integer arithmetic: a symbolic int compared with a
+    float literal such as `d <= 0.0` sends CrossHair into real arithmetic and a trivial function becomes undecided)"""
+    if isinstance(o, TSec): return o.t
+    if isinstance(o, float) and o == int(o): return int(o)
+    return o
+
+
+class TSec:
+    """seconds as returned by to_seconds(): an int of ticks that tolerates RxPY's float literals (0.0, 1.0)"""
+    __slots__ = ("t",)
+    def __init__(self, t): self.t = _num(t)
+    def __lt__(self, o): return self.t < _num(o)
+    def __le__(self, o): return self.t <= _num(o)
+    def __gt__(self, o): return self.t > _num(o)
+    def __ge__(self, o): return self.t >= _num(o)
+    def __eq__(self, o):
+        if isinstance(o, (TSec, int, float)): return self.t == _num(o)
+        return NotImplemented
+    def __ne__(self, o):
+        r = self.__eq__(o)
+        return r if r is NotImplemented else not r
+    def __hash__(self): return hash(self.t)
+    def __bool__(self): return self.t != 0
+    def __add__(self, o): return TSec(self.t + _num(o))
+    __radd__ = __add__
+    def __sub__(self, o): return TSec(self.t - _num(o))
+    def __rsub__(self, o): return TSec(_num(o) - self.t)
+    def __mul__(self, o): return TSec(self.t * _num(o))
+    __rmul__ = __mul__
+    def __neg__(self): return TSec(-self.t)
+    def __int__(self): return int(self.t)
+    def __index__(self): return int(self.t)
+    def __float__(self): return float(self.t)
+    def __repr__(self): return f"TSec({self.t})"
+
+
 class TickMixin:
     @classmethod
     def to_datetime(cls, value):
         if isinstance(value, Tick): return value
         if isinstance(value, Span): return Tick(value.t)
-        return Tick(value)
+        return Tick(_num(value))
     @classmethod
     def to_timedelta(cls, value):
         if isinstance(value, Span): return value
         if isinstance(value, Tick): return Span(value.t)
-        if isinstance(value, _dt.timedelta): return Span(int(value.total_seconds()))
-        return Span(value)
+        if isinstance(value, _dt.timedelta): return Span(_sp(value))
+        return Span(_num(value))
     @classmethod
     def to_seconds(cls, value):
+        # plain ints of ticks (engine/xh.py makes CrossHair compare a symbolic int with an integral float literal such
+        # as `d <= 0.0` in integer arithmetic; TSec is kept for code that wants an explicit wrapper)
         if isinstance(value, (Tick, Span)): return value.t
-        return value
+        if isinstance(value, _dt.timedelta): return _sp(value)
+        return _num(value)
+    @property
+    def clock(self):
+        """the clock reading as a plain int of ticks"""
+        return _num(self._get_clock())
 
 
 class TickScheduler(TickMixin, TestScheduler):
